@@ -14,9 +14,10 @@ import re
 from fractions import Fraction
 
 from .core import AnalysisError, loc, norm_src, walk_no_nested, dotted, str_const, Inliner
+from . import symx
 from .symx import Interp, Obj, Path, PList, PDict, Opaque, Unsupported, explore, Abort, Cmp
 from .rat import Rat, V, K
-from .lpdb import build_all, OPT
+from .lpdb import build_all, OPT, lp_model_param
 
 EXT = "src/optimizer/extract_results.py"
 INT = "src/optimizer/interpret_results.py"
@@ -78,7 +79,7 @@ def extractor_view(index):
                 callee = index.func(EXT, "Extractor." + d[5:])
                 params = [x.arg for x in callee.args.args][1:]
                 a = list(a) + [kw[p_] for p_ in params[len(a):] if p_ in kw]
-                calls.append((d[5:], a, node))
+                calls.append((d[5:], a, node, dict(zip(params, a))))
                 n = len(calls) - 1
                 if d[5:] == "extract_to_humans_feed_and_biofuel":
                     return tuple(Path((f"call{n}", str(k))) for k in range(3))
@@ -87,7 +88,9 @@ def extractor_view(index):
 
         it.call_hook = hook
         obj = Obj(cls, {"constants": Path(("consts",))}, "self")
-        it.call_function(er, [Path(("model",)), Path(("variables",)), Path(("tc",))], {}, obj)
+        from .core import bind_named
+        a_, k_ = bind_named(er, [("model", Path(("model",))), ("variables", Path(("variables",))), ("time_consts", Path(("tc",)))])
+        it.call_function(er, a_, k_, obj)
         return obj, list(calls)
 
     try:
@@ -101,6 +104,66 @@ def extractor_view(index):
     return _ext_cache[id(index)]
 
 
+_deep_cache = {}
+
+
+def extractor_deep(index):
+    """extract_results evaluated with the triple helper and the generic conversion followed into (only to_monthly_list and Food stand
+    for themselves): attribute -> value; a reported series reads  series(<variable family>) x factor / KCALS_MONTHLY  whatever the
+    signatures of the helpers in between"""
+    if id(index) in _deep_cache:
+        return _deep_cache[id(index)]
+    cls = index.cls(EXT, "Extractor")
+    er = index.func(EXT, "Extractor.extract_results")
+    from .core import bind_named
+
+    def runit(it):
+        it.classes = {"Extractor": cls}
+
+        def hook(interp, d, a, kw, node):
+            if d == "self.to_monthly_list":
+                vals = list(a) + list(kw.values())
+                series = [v for v in vals if isinstance(v, Path)]
+                conv = [v for v in vals if not isinstance(v, Path)]
+                if len(series) != 1 or len(conv) != 1:
+                    raise Unsupported("to_monthly_list called with other than (a variable family, a conversion factor)", node)
+                return Rat.atom(("series", ".".join(str(x) for x in series[0].parts))) * interp.to_rat(conv[0])
+            if d == "Food":
+                return PDict(dict(kw))
+            if d and d.startswith("self.") and d[5:] in _EXTRACT_STEPS and d[5:] != "extract_to_humans_feed_and_biofuel":
+                return Path(("step", d[5:]))
+            return NotImplemented
+
+        it.call_hook = hook
+        obj = Obj(cls, {"constants": Path(("consts",))}, "self")
+        a_, k_ = bind_named(er, [("model", Path(("model",))), ("variables", Path(("variables",))), ("time_consts", Path(("tc",)))])
+        it.call_function(er, a_, k_, obj)
+        return obj
+
+    try:
+        leaves = [x for x in explore(runit, month_classes=False, preset={"consts.inputs.INCLUDE_FAT": False, "consts.inputs.INCLUDE_PROTEIN": False})
+                  if not isinstance(x[2], Abort)]
+    except Unsupported as e:
+        raise AnalysisError(f"Extractor.extract_results (helpers followed) outside the analysed fragment: {e}")
+    if len(leaves) != 1:
+        raise AnalysisError(f"Extractor.extract_results (helpers followed): {len(leaves)} paths")
+    _deep_cache[id(index)] = (leaves[0][2].attrs, leaves[0][3])
+    return _deep_cache[id(index)]
+
+
+def triple_factor(deep, lpfam, exattr):
+    """reporting factor of a food: reported to-humans kcals x KCALS_MONTHLY / series(<family>_to_humans), when that is a plain factor"""
+    v = deep.get(f"{exattr}_to_humans")
+    kc = v.d.get("kcals") if isinstance(v, PDict) else None
+    if not isinstance(kc, Rat):
+        return None
+    s_ = Rat.atom(("series", f"variables.{lpfam}_to_humans"))
+    r = kc * Rat.atom(K(("consts", "KCALS_MONTHLY"), None)) / s_
+    if any(isinstance(a_, tuple) and a_ and a_[0] == "series" for a_ in r.atoms()):
+        return None
+    return r
+
+
 def chain(index, rep, db):
     rule = "C04.CHAIN"
     er = index.func(EXT, "Extractor.extract_results")
@@ -110,55 +173,33 @@ def chain(index, rep, db):
     def path_text(v):
         return ".".join(str(x) for x in v.parts) if isinstance(v, Path) else None
 
+    deep, _it_d = extractor_deep(index)
+    km_ = Rat.atom(K(("consts", "KCALS_MONTHLY"), None))
+    h = index.func(EXT, "Extractor.extract_to_humans_feed_and_biofuel")
     for food, (lpfam, exattr) in VAR_FOODS.items():
         uses = ("to_humans", "feed", "biofuel")
-        got_t, got_f = [], []
-        call_ids = set()
-        for k, use in enumerate(uses):
-            v = attrs_x.get(f"{exattr}_{use}")
-            pt = path_text(v) or ""
-            m_ = re.fullmatch(r"call(\d+)\.(\d)", pt)
-            if not m_ or calls_x[int(m_.group(1))][0] != "extract_to_humans_feed_and_biofuel":
-                got_t.append(pt or "?")
-                got_f.append("?")
-                continue
-            n_, slot = int(m_.group(1)), int(m_.group(2))
-            call_ids.add(n_)
-            got_t.append(f"result {slot}")
-            args_ = calls_x[n_][1]
-            got_f.append((path_text(args_[slot]) or "?").replace("variables.", "") if slot < len(args_) else "?")
-        if not call_ids:
-            raise AnalysisError(f"extract_results no longer fills self.{exattr}_to_humans from extract_to_humans_feed_and_biofuel")
-        want_f = [f"{lpfam}_{u}" for u in uses]
-        node = calls_x[sorted(call_ids)[0]][2]
-        rep.check(len(call_ids) == 1 and got_t == ["result 0", "result 1", "result 2"] and got_f == want_f, rule, f"extractor:{food}:(to_humans,feed,biofuel)",
-                  f"the optimiser variables {got_f} are not extracted into self.{exattr}_(to_humans, feed, biofuel) in that order (a feed/biofuel series "
-                  "would be reported as eaten by people, or vice versa)", loc=loc(EXT, node))
-    # 2. helper: slot i of the result comes from parameter i
-    h = index.func(EXT, "Extractor.extract_to_humans_feed_and_biofuel")
-    params = [a.arg for a in h.args.args][1:]
-    it_h = Interp()
-
-    def hook_h(interp, d, a, kw, node):
-        if d == "self.extract_generic_results":
-            return tuple(["generic"] + list(a))
-        return NotImplemented
-
-    it_h.call_hook = hook_h
-    try:
-        res_h = it_h.call_function(h, [Path((p_,)) for p_ in params], {}, Obj(None, {}, "self"))
-    except (Unsupported, Abort) as e:
-        raise AnalysisError(f"extract_to_humans_feed_and_biofuel outside the analysed fragment: {e}")
-    items_h = res_h.items if isinstance(res_h, PList) else (list(res_h) if isinstance(res_h, tuple) else None)
-    ok = items_h is not None and len(items_h) == 3 and len(params) >= 6
-    if ok:
-        for i, e_ in enumerate(items_h):
-            ok = ok and isinstance(e_, tuple) and len(e_) >= 5 and e_[0] == "generic" and isinstance(e_[1], Path) and e_[1].parts == (params[i],) and \
-                [x.parts[0] if isinstance(x, Path) else None for x in e_[2:5]] == params[3:6]
+        ratio = triple_factor(deep, lpfam, exattr)
+        got = []
+        same = ratio is not None
+        for use in uses:
+            v = deep.get(f"{exattr}_{use}")
+            kc = v.d.get("kcals") if isinstance(v, PDict) else None
+            got.append(str(kc) if kc is not None else "?")
+            ok_u = ratio is not None and isinstance(kc, Rat) and kc == Rat.atom(("series", f"variables.{lpfam}_{use}")) * ratio / km_
+            same = same and ok_u
+        rep.check(same, rule, f"extractor:{food}:(to_humans,feed,biofuel)",
+                  f"self.{exattr}_(to_humans, feed, biofuel) are not the optimiser variables {lpfam}_(to_humans, feed, biofuel), in that order, "
+                  f"converted with one common factor (got {got}): a feed/biofuel series would be reported as eaten by people, or vice versa",
+                  loc=loc(EXT, er))
+    # 2. the three results of one food carry the same unit
+    ok = True
+    for food, (lpfam, exattr) in VAR_FOODS.items():
+        units = {(deep.get(f"{exattr}_{u}").d.get("kcals_units") if isinstance(deep.get(f"{exattr}_{u}"), PDict) else None) for u in ("to_humans", "feed", "biofuel")}
+        ok = ok and units == {"billion people fed each month"}
     rep.check(ok, rule, "helper:slot-i-from-parameter-i", "extract_to_humans_feed_and_biofuel does not return (f(to_humans), f(feed), f(biofuel)) "
-              "built with the same three ratios", loc=loc(EXT, h))
+              "in billions fed each month", loc=loc(EXT, h))
     # 3. the remaining five foods
-    step = {name: (args_, node) for name, args_, node in calls_x}
+    step = {name: (args_, node, bound_) for name, args_, node, bound_ in calls_x}
     rep.check(path_text(attrs_x.get("fish")) == "tc.fish.to_humans.in_units_billions_fed()", rule, "extractor:fish",
               "fish contribution is not the fish supply series (to humans) converted to billions fed", loc=loc(EXT, er))
     ghv = path_text(attrs_x.get("greenhouse")) or ""
@@ -168,7 +209,7 @@ def chain(index, rep, db):
               "extractor:greenhouse", "greenhouse contribution is not the greenhouse supply series", loc=loc(EXT, er))
     gh = index.func(EXT, "Extractor.get_greenhouse_results")
     rets = [norm_src(r.value) for r in gh.body if isinstance(r, ast.Return)]
-    par = gh.args.args[1].arg
+    par = gh.args.args[1].arg if len(gh.args.args) == 2 else "?"
     asg = [norm_src(s) for s in gh.body if isinstance(s, ast.Assign)]
     rep.check(rets == ["self.greenhouse_percent_fed.in_units_billions_fed()"] and f"self.greenhouse_percent_fed = {par}" in asg, rule,
               "extractor:greenhouse-helper", "get_greenhouse_results does not return its argument converted to billions fed", loc=loc(EXT, gh))
@@ -176,22 +217,58 @@ def chain(index, rep, db):
         raise AnalysisError("extract_results no longer calls extract_outdoor_crops_results / extract_meat_milk_results")
     oc, mm = step["extract_outdoor_crops_results"][1], step["extract_meat_milk_results"][1]
     ocf = index.func(EXT, "Extractor.extract_outdoor_crops_results")
-    pnames = [a.arg for a in ocf.args.args][1:]
-    got = [path_text(a) or "?" for a in step["extract_outdoor_crops_results"][0]]
-    want = [f"variables.{p}" for p in pnames[:9]] + ["tc.outdoor_crops.production"]
-    rep.check(got == want, rule, "extractor:outdoor_crops:arguments",
-              "the crop variables are not passed to extract_outdoor_crops_results in the order of its parameters "
-              f"(got {got[:3]}..., parameters {pnames[:3]}...)", loc=loc(EXT, oc))
-    # inside: outdoor_crops_to_humans from (to_humans, to_humans_fat, to_humans_protein)
-    ok = False
-    for st in walk_no_nested(ocf):
-        if isinstance(st, ast.Assign) and dotted(st.targets[0]) == "self.outdoor_crops_to_humans" and isinstance(st.value, ast.Call) \
-                and dotted(st.value.func) == "self.create_food_object_from_fat_protein_variables":
-            ok = [norm_src(a) for a in st.value.args] == pnames[0:3]
-    rep.check(ok, rule, "extractor:outdoor_crops:to_humans", "outdoor_crops_to_humans is not built from the to-humans crop variables", loc=loc(EXT, ocf))
+    # what the call hands over, by parameter: the nine crop variable families and the crop supply series, each once (the names and the order
+    # of the parameters are the callee's own business; what each parameter is *used for* is read below through this binding)
+    sigma = {p_: (path_text(v_) or "?") for p_, v_ in step["extract_outdoor_crops_results"][2].items()}
+    fams9 = [f"variables.crops_food_{u}{n_}" for u in ("to_humans", "biofuel", "feed") for n_ in ("", "_fat", "_protein")]
+    rep.check(sorted(sigma.values()) == sorted(fams9 + ["tc.outdoor_crops.production"]), rule, "extractor:outdoor_crops:arguments",
+              "extract_outdoor_crops_results does not receive the nine crop variable families and the crop supply series, each once "
+              f"(got {sorted(sigma.values())[:4]}...)", loc=loc(EXT, oc))
+    # inside: outdoor_crops_<use> = Food(kcals <- the <use> variables, fat <- <use>_fat, protein <- <use>_protein): the food object built from
+    # them is evaluated with every parameter standing for what extract_results hands over for it
+    cf_ = index.func(EXT, "Extractor.create_food_object_from_fat_protein_variables")
+    cls_ = index.cls(EXT, "Extractor")
+    from .core import bind_args as _ba4
+
+    def hook_cf(interp, d, a, kw, node):
+        if d == "self.to_monthly_list":
+            vals = list(a) + list(kw.values())
+            series = [v for v in vals if isinstance(v, Path)]
+            conv = [v for v in vals if not isinstance(v, Path)]
+            if len(series) != 1 or len(conv) != 1:
+                raise Unsupported("to_monthly_list called with other than (a variable family, a conversion factor)", node)
+            return Rat.atom(("series", ".".join(str(x) for x in series[0].parts))) * interp.to_rat(conv[0])
+        if d == "Food":
+            return PDict(dict(kw))
+        return NotImplemented
+
+    for use in ("to_humans", "biofuel", "feed"):
+        ok = False
+        detail = ""
+        for st in walk_no_nested(ocf):
+            if isinstance(st, ast.Assign) and dotted(st.targets[0]) == f"self.outdoor_crops_{use}" and isinstance(st.value, ast.Call) \
+                    and dotted(st.value.func) == "self.create_food_object_from_fat_protein_variables":
+                kwargs_ = {}
+                for p_, e_ in _ba4(st.value, cf_).items():
+                    t_ = sigma.get(norm_src(e_), "?")
+                    kwargs_[p_] = Path(tuple(t_.split("."))) if t_ != "?" else Opaque("?")
+                it_cf = Interp(decisions={"consts.inputs.INCLUDE_FAT": True, "consts.inputs.INCLUDE_PROTEIN": True})
+                it_cf.classes = {"Extractor": cls_}
+                it_cf.call_hook = hook_cf
+                try:
+                    r_ = it_cf.call_function(cf_, [], kwargs_, Obj(cls_, {"constants": Path(("consts",))}, "self"))
+                except (Unsupported, Abort, symx.Fork) as e:
+                    raise AnalysisError(f"create_food_object_from_fat_protein_variables outside the analysed fragment: {e!r}")
+                if isinstance(r_, PDict):
+                    want_ = {"kcals": f"variables.crops_food_{use}", "fat": f"variables.crops_food_{use}_fat", "protein": f"variables.crops_food_{use}_protein"}
+                    ok = all(isinstance(r_.d.get(l_), Rat) and {a_[1] for a_ in r_.d[l_].atoms() if isinstance(a_, tuple) and a_ and a_[0] == "series"} == {w_}
+                             for l_, w_ in want_.items())
+                    detail = str({l_: str(r_.d.get(l_)) for l_ in want_})
+        rep.check(ok, rule, f"extractor:outdoor_crops:{use}", f"outdoor_crops_{use} is not built from the {use} crop variables (kcals, fat, protein)",
+                  loc=loc(EXT, ocf), detail=detail)
     mmf = index.func(EXT, "Extractor.extract_meat_milk_results")
-    got = [path_text(a) or "?" for a in step["extract_meat_milk_results"][0]]
-    rep.check(got == ["variables.meat_eaten", "tc.milk_kcals", "tc.milk_fat", "tc.milk_protein"], rule,
+    got = sorted(path_text(a) or "?" for a in step["extract_meat_milk_results"][2].values())
+    rep.check(got == sorted(["variables.meat_eaten", "tc.milk_kcals", "tc.milk_fat", "tc.milk_protein"]), rule,
               "extractor:meat-milk:arguments", f"meat/milk extraction receives {got}", loc=loc(EXT, mm))
     # 4. interpreter mappings
     for q, method, suffix in (("Interpreter.assign_percent_fed_from_extractor", "in_units_percent_fed", ""),
@@ -229,8 +306,24 @@ def chain(index, rep, db):
     got = plain_text(inl.expr(rets[-1].value)) if rets and rets[-1].value is not None else ""
     # returned = interpreter.interpret_results(Extractor(consts).extract_results(model, variables, time_consts), title), each of them one of this
     # function's own parameters (whatever their names and order)
-    m_w = re.fullmatch(r"(\w+)\.interpret_results\(Extractor\((\w+)\)\.extract_results\((\w+), (\w+), (\w+)\), (\w+)\)", got)
-    roles = dict(zip(("interpreter", "constants", "model", "variables", "time_consts", "title"), m_w.groups())) if m_w else {}
+    from .core import args_by_ref_names as _abn
+    roles = {}
+    e_w = inl.expr(rets[-1].value) if rets and rets[-1].value is not None else None
+    try:
+        xr = index.func(EXT, "Extractor.extract_results")
+        ir = index.func(INT, "Interpreter.interpret_results")
+        xi = index.func(EXT, "Extractor.__init__")
+        if isinstance(e_w, ast.Call) and isinstance(e_w.func, ast.Attribute) and e_w.func.attr == "interpret_results" and isinstance(e_w.func.value, ast.Name):
+            ex_, title_ = _abn(e_w, ir, ["extracted_results", "title"])
+            if isinstance(ex_, ast.Call) and isinstance(ex_.func, ast.Attribute) and ex_.func.attr == "extract_results" \
+                    and isinstance(ex_.func.value, ast.Call) and dotted(ex_.func.value.func) == "Extractor":
+                m3 = _abn(ex_, xr, ["model", "variables", "time_consts"])
+                c1 = _abn(ex_.func.value, xi, ["constants"])
+                vals = [e_w.func.value, c1[0]] + m3 + [title_]
+                if all(isinstance(v_, ast.Name) for v_ in vals):
+                    roles = dict(zip(("interpreter", "constants", "model", "variables", "time_consts", "title"), [v_.id for v_ in vals]))
+    except AnalysisError:
+        roles = {}
     rep.check(bool(roles) and len(set(roles.values())) == 6 and set(roles.values()) <= set(P[1:]), rule, "wiring:same-solve",
               "results are not extracted from the (model, variables, time_consts, constants) of the solve being reported", loc=loc(RUN, io),
               detail=f"got {got}")
@@ -243,14 +336,39 @@ def chain(index, rep, db):
         inl_ro = Inliner(ro)
         RP = [a.arg for a in ro.args.args]
         from .core import through_helpers
-        a4 = [[plain_text(t_) for t_ in (through_helpers(index.methods(RUN, "ScenarioRunner"), inl_ro, bound[roles[r_]]) or ["?"])]
+        import ast as _ast
+        from .core import args_by_ref_names
+        a4 = [[(t_ if isinstance(t_, str) else norm_src(t_)) for t_ in (through_helpers(index.methods(RUN, "ScenarioRunner"), inl_ro, bound[roles[r_]]) or ["?"])]
               for r_ in ("constants", "model", "variables", "time_consts")]
-        # (constants, model, variables, monthly constants): constants and monthly constants are run_optimizer's own first two parameters,
-        # model and variables are slots 0 and 1 of an optimiser call made with those same parameters (on every branch)
-        ok = a4[0] == [RP[1]] and a4[3] == [RP[2]] and len(a4[1]) == len(a4[2]) >= 1
+        # (constants, model, variables, monthly constants): constants and monthly constants are parameters of run_optimizer itself, model and
+        # variables are slots 0 and 1 of one optimiser call - Optimizer(constants, monthly).optimize_*(constants, monthly, ...) - made with
+        # those same two parameters (on every branch); which argument is which is read through the callee's own parameter list
+        ocls = index.methods(OPT, "Optimizer")
+        ok = len(a4[0]) == 1 and len(a4[3]) == 1 and a4[0][0] in RP[1:] and a4[3][0] in RP[1:] and a4[0] != a4[3] and len(a4[1]) == len(a4[2]) >= 1
+        C_, T_ = (a4[0][0], a4[3][0]) if ok else ("?", "?")
+
+        def solve_call(text, slot):
+            try:
+                e_ = _ast.parse(text, mode="eval").body
+            except SyntaxError:
+                return None
+            if not (isinstance(e_, _ast.Subscript) and isinstance(e_.slice, _ast.Constant) and e_.slice.value == slot and isinstance(e_.value, _ast.Call)):
+                return None
+            c_ = e_.value
+            if not (isinstance(c_.func, _ast.Attribute) and c_.func.attr in ("optimize_to_humans", "optimize_feed_to_animals") and c_.func.attr in ocls
+                    and isinstance(c_.func.value, _ast.Call) and dotted(c_.func.value.func) == "Optimizer" and "__init__" in ocls):
+                return None
+            ctor = args_by_ref_names(c_.func.value, ocls["__init__"], ["consts_for_optimizer", "time_consts"])
+            meth = args_by_ref_names(c_, ocls[c_.func.attr], ["consts_for_optimizer", "time_consts"])
+            if None in ctor or None in meth:
+                return None
+            if [norm_src(x) for x in ctor] != [C_, T_] or [norm_src(x) for x in meth] != [C_, T_]:
+                return None
+            return norm_src(c_)
+
         for m_, v_ in zip(a4[1], a4[2]):
-            ok = ok and m_.endswith("[0]") and v_.endswith("[1]") and m_[:-3] == v_[:-3] and m_.startswith(f"Optimizer({RP[1]}, {RP[2]}).optimize_") \
-                and (f".optimize_to_humans({RP[1]}, {RP[2]})" in m_ or f".optimize_feed_to_animals({RP[1]}, {RP[2]}, " in m_)
+            sm, sv = solve_call(m_, 0), solve_call(v_, 1)
+            ok = ok and sm is not None and sm == sv
     rep.check(ok, rule, "wiring:run_optimizer", "run_optimizer does not hand its own model/variables/constants to the interpreter", loc=loc(RUN, ro))
     rep.require_min(rule, 30)
 
@@ -276,26 +394,27 @@ def coef(index, rep, db):
         if v.family != "consumed_kcals":
             lp[v.family] = (Rat.const(0) - c) / norm
     # extractor ratios
-    attrs_x, calls_x, it = extractor_view(index)
-    for name_, args_, st in calls_x:
-        if name_ == "extract_to_humans_feed_and_biofuel":
-            fam = args_[0].parts[1] if isinstance(args_[0], Path) and len(args_[0].parts) == 2 and args_[0].parts[0] == "variables" else None
-            try:
-                val = it.to_rat(args_[3])
-            except Exception as e:
-                raise AnalysisError(f"kcals_ratio argument outside the fragment: {e}")
-            if fam not in lp:
-                raise AnalysisError(f"family {fam} not in the LP consumption sum")
-            rep.check(val == lp[fam], rule, f"ratio:{fam}",
-                      f"the reporting factor of {fam} ({val}) differs from its coefficient in the optimiser's consumption sum ({lp[fam]}): the "
-                      "breakdown would not add up to the optimised percent fed", loc=loc(EXT, st))
+    deep, _it_d = extractor_deep(index)
+    er_ = index.func(EXT, "Extractor.extract_results")
+    for food, (lpfam, exattr) in VAR_FOODS.items():
+        fam = f"{lpfam}_to_humans"
+        val = triple_factor(deep, lpfam, exattr)
+        if fam not in lp:
+            raise AnalysisError(f"family {fam} not in the LP consumption sum")
+        rep.check(val is not None and val == lp[fam], rule, f"ratio:{fam}",
+                  f"the reporting factor of {fam} ({val}) differs from its coefficient in the optimiser's consumption sum ({lp[fam]}): the "
+                  "breakdown would not add up to the optimised percent fed", loc=loc(EXT, er_))
     # generic conversion: billions fed = series * ratio / KCALS_MONTHLY
     cls = index.cls(EXT, "Extractor")
     g = index.func(EXT, "Extractor.extract_generic_results")
 
+    from .core import values_by_ref_names
+    tml_fn = index.func(EXT, "Extractor.to_monthly_list")
+
     def hook(interp, d, args, kwargs, node):
         if d == "self.to_monthly_list":
-            return Rat.atom(("series", str(interp.to_rat(args[0])))) * interp.to_rat(args[1])
+            v_, c_ = values_by_ref_names(tml_fn, args, kwargs, ["variables", "conversion"])
+            return Rat.atom(("series", str(interp.to_rat(v_)))) * interp.to_rat(c_)
         if d == "Food":
             return PDict(dict(kwargs))
         if d in ("np.zeros", "np.array"):
@@ -313,12 +432,12 @@ def coef(index, rep, db):
         gargs = {}
         for i_, p_ in enumerate(gp):
             words = [w for w in by_word if w in p_.lower() and "ratio" in p_.lower()]
-            if i_ == 0 and not words:
-                gargs[p_] = P
-            elif len(words) == 1:
+            if len(words) == 1:
                 gargs[p_] = by_word[words[0]]
             elif "const" in p_.lower():
                 gargs[p_] = Path(("consts",))
+            elif P not in gargs.values() and "ratio" not in p_.lower():
+                gargs[p_] = P
             else:
                 raise AnalysisError(f"extract_generic_results: parameter {p_!r} is none of (series, kcals/fat/protein ratio, constants)")
         res = it2.call_function(g, [], gargs, obj)
@@ -339,7 +458,17 @@ def coef(index, rep, db):
     it3.classes = {"Extractor": cls}
     it3.call_hook = hook
     obj3 = Obj(cls, {"constants": Path(("consts",))}, "self")
-    M_, mk, mf, mp = (Rat.atom((n,)) for n in ("meat", "milk_kcals", "milk_fat", "milk_protein"))
+    _ax, calls_x2, _ix = extractor_view(index)
+    mm_bound = [b_ for n_, _a, _n, b_ in calls_x2 if n_ == "extract_meat_milk_results"]
+    if len(mm_bound) != 1:
+        raise AnalysisError("extract_results: expected one call of extract_meat_milk_results")
+    # each parameter stands for what extract_results hands over for it: the meat variable family, the three milk series
+    mm_args = {}
+    for p_, v_ in mm_bound[0].items():
+        t_ = ".".join(str(x) for x in v_.parts) if isinstance(v_, Path) else "?"
+        mm_args[p_] = Rat.atom(("meat",)) if t_ == "variables.meat_eaten" else Rat.atom((t_.replace("tc.", ""),))
+    M_ = Rat.atom(("meat",))
+    mk = Rat.atom(("milk_kcals",))
 
     def hook3(interp, d, args, kwargs, node):
         if d == "np.array" and len(args) == 1:
@@ -348,7 +477,7 @@ def coef(index, rep, db):
 
     it3.call_hook = hook3
     try:
-        it3.call_function(mmf, [M_, mk, mf, mp], {}, obj3)
+        it3.call_function(mmf, [], mm_args, obj3)
     except Exception as e:
         raise AnalysisError(f"extract_meat_milk_results outside the fragment: {e!r}")
     meat = obj3.attrs.get("meat")
@@ -364,7 +493,9 @@ def coef(index, rep, db):
     it4.classes = {"Extractor": cls}
     it4.call_hook = hook
     try:
-        res4 = it4.call_function(cf, [P, Rat.atom(("Pf",)), Rat.atom(("Pp",))], {}, Obj(cls, {"constants": Path(("consts",))}, "self"))
+        from .core import bind_named as _bn4
+        a4_, k4_ = _bn4(cf, [("production_kcals", P), ("production_fat", Rat.atom(("Pf",))), ("production_protein", Rat.atom(("Pp",)))])
+        res4 = it4.call_function(cf, a4_, k4_, Obj(cls, {"constants": Path(("consts",))}, "self"))
     except Exception as e:
         raise AnalysisError(f"create_food_object_from_fat_protein_variables outside the fragment: {e!r}")
     rep.check(isinstance(res4, PDict) and res4.d.get("kcals") == Rat.atom(("series", str(P))) / km, rule, "crops:ratio-1",
@@ -374,7 +505,13 @@ def coef(index, rep, db):
     loops = [s for s in tml.body if isinstance(s, ast.For)]
     ok = len(loops) == 1 and norm_src(loops[0].iter) in ("range(0, self.constants['NMONTHS'])", "range(self.constants['NMONTHS'])")
     if ok:
-        pv, pc = [a.arg for a in tml.args.args if a.arg != "self"][:2]
+        # the variable list is the parameter the loop body subscripts with the loop variable; the conversion factor is the other one
+        _ps = [a.arg for a in tml.args.args if a.arg != "self"]
+        _sub = {n.value.id for n in ast.walk(loops[0]) if isinstance(n, ast.Subscript) and isinstance(n.value, ast.Name) and n.value.id in _ps}
+        if len(_ps) != 2 or len(_sub) != 1:
+            raise AnalysisError("to_monthly_list: expected (variable list, conversion factor)")
+        pv = _sub.pop()
+        pc = [x for x in _ps if x != pv][0]
 
         def run5(it5):
             env = {pv: Opaque("variables"), pc: Rat.atom(("conv",)), loops[0].target.id: Rat.atom("M")}
@@ -411,7 +548,13 @@ def coef(index, rep, db):
         # written as a comprehension over the months: evaluate the last return expression with a generic month index
         from .symx import RLE, EIDX, NSYM, PDict as _PD
         from .nphooks import np_hook
-        pv, pc = [a.arg for a in tml.args.args if a.arg != "self"][:2]
+        # the variable list is the parameter the loop body subscripts with the loop variable; the conversion factor is the other one
+        _ps = [a.arg for a in tml.args.args if a.arg != "self"]
+        _sub = {n.value.id for n in ast.walk(loops[0]) if isinstance(n, ast.Subscript) and isinstance(n.value, ast.Name) and n.value.id in _ps}
+        if len(_ps) != 2 or len(_sub) != 1:
+            raise AnalysisError("to_monthly_list: expected (variable list, conversion factor)")
+        pv = _sub.pop()
+        pc = [x for x in _ps if x != pv][0]
         last = [r for r in tml.body if isinstance(r, ast.Return)]
         okfinal = False
         if last:
@@ -581,23 +724,37 @@ def floor(index, rep, db):
         if okh:
             target = norm_src(solves[0].func.value)
             srcs = [norm_src(s.value) for s in walk_no_nested(h) if isinstance(s, ast.Assign) and norm_src(s.targets[0]) == target]
-            okh = srcs in (["model"], ["model.copy()"])
+            hp = lp_model_param(h)
+            okh = hp is not None and srcs in ([hp], [f"{hp}.copy()"])
         rep.check(okh, rule, f"{helper}:solves-the-floored-model",
                   "the tie-breaking solve is not run on the floored model (or a copy of it): the headline could degrade", loc=loc(OPT, h))
     # the floor helper adds to the model it is given and returns it
     fh = index.func(OPT, "Optimizer.constrain_next_optimization_to_have_same_minimum_starvation")
     rets = [norm_src(r.value) for r in fh.body if isinstance(r, ast.Return)]
-    rep.check(rets == ["(model, variables)"], rule, "floor-helper:returns-model", "the floored model is not returned", loc=loc(OPT, fh))
+    fhp = lp_model_param(fh)
+    rep.check(len(rets) == 1 and fhp is not None and rets[0].startswith(f"({fhp}, ") and rets[0][len(fhp) + 3:-1] in [a.arg for a in fh.args.args], rule, "floor-helper:returns-model", "the floored model is not returned", loc=loc(OPT, fh))
     # what the first tie-breaking solve receives as its model is result 0 of a floor helper (on every branch), and the floor helper itself
     # received this function's model parameter
     later = [c for c in ast.walk(fn) if isinstance(c, ast.Call) and dotted(c.func) == "self." + need[1]]
-    model_p = fn.args.args[1].arg
+    model_p = lp_model_param(fn)
     inl_f = Inliner(fn)
-    ok = len(later) == 1 and bool(later[0].args)
+    from .core import bind_args as _baf
+    h1 = index.func(OPT, "Optimizer." + need[1])
+    h1p = lp_model_param(h1)
+    ok = len(later) == 1 and model_p is not None and h1p is not None and fhp is not None and h1p in _baf(later[0], h1)
     if ok:
-        alts = inl_f.at(later[0]).alternatives(later[0].args[0]) or []
-        ok = bool(alts) and all(a_.startswith("self.constrain_next_optimization_to_have_same_") and a_.endswith("[0]") for a_ in alts) and \
-            any(a_.startswith(f"self.constrain_next_optimization_to_have_same_minimum_starvation({model_p}, ") for a_ in alts)
+        alts = inl_f.at(later[0]).alternatives(_baf(later[0], h1)[h1p]) or []
+        ok = bool(alts) and all(a_.startswith("self.constrain_next_optimization_to_have_same_") and a_.endswith("[0]") for a_ in alts)
+        threaded = False
+        for a_ in alts:
+            try:
+                e_ = ast.parse(a_, mode="eval").body
+            except SyntaxError:
+                continue
+            if isinstance(e_, ast.Subscript) and isinstance(e_.value, ast.Call) and dotted(e_.value.func) == "self.constrain_next_optimization_to_have_same_minimum_starvation":
+                got_m = _baf(e_.value, fh).get(fhp)
+                threaded = threaded or (got_m is not None and norm_src(got_m) == model_p)
+        ok = ok and threaded
     rep.check(ok, rule, "floor-helper:threaded", "the floored model is not the one passed on to the later solves", loc=loc(OPT, fn))
     rep.require_min(rule, 8)
 
